@@ -1,6 +1,6 @@
 (** C16 — model of [kvarn_utils::extensions] (utils/src/extensions.rs):
     [PresentExtensions::new] (the parser of a file's first line [!> name arg arg &> name2 arg]),
-    [PresentExtensionsIter::next], [PresentArguments::name], [PresentArgumentsIter::next],
+    [PresentExtensionsIter::next], [PresentArguments::name], [PresentArgumentsIter::{next, next_back}],
     and the [split_off(data_start)] that [Extensions::resolve_present] applies to the body.
     Index arithmetic, slices and vector indexing are explicit ([Panic]).
     Definitions only; proofs live in Proofs/PresentLineProofs.v. *)
@@ -214,6 +214,82 @@ Definition empty_args_next_with (at_end : nat -> nat -> bool) : outcome (option 
 Definition empty_args_next := empty_args_next_with args_end.
 Definition empty_args_next_v0 := empty_args_next_with args_end_v0.
 
+(** ---- [impl DoubleEndedIterator for PresentArgumentsIter]: [next] and [next_back] as one state
+    machine over [(index, back_index)] (live code: kvarn_extensions::templates calls
+    [arguments.iter().rev()]).
+      next:      if index >= back_index { None } else { extensions[data_index + index].get_arg(); index += 1 }
+      next_back: if index >= back_index { None } else { extensions[data_index + back_index - 1].get_arg(); back_index -= 1 } *)
+Section DoubleEnded.
+Variable data : bytes.
+Variable exts : list posdata.
+Variable data_index : nat.
+Definition arg_at (i : nat) : outcome bytes :=
+  match nth_error exts i with                             (* self.data.extensions[i] *)
+  | None => Panic
+  | Some e => let '(s, l) := pd_arg e in slice_chk s (s + l) data
+  end.
+Definition de_state := (nat * nat)%type.                  (* index, back_index *)
+Definition de_next (st : de_state) : outcome (option bytes * de_state) :=
+  let '(index, back_index) := st in
+  if Nat.leb back_index index then Ok (None, st)
+  else obind (arg_at (data_index + index)) (fun a => Ok (Some a, (S index, back_index))).
+Definition de_next_back (st : de_state) : outcome (option bytes * de_state) :=
+  let '(index, back_index) := st in
+  if Nat.leb back_index index then Ok (None, st)
+  else if Nat.eqb (data_index + back_index) 0 then Panic  (* usize: data_index + back_index - 1 *)
+  else obind (arg_at (data_index + back_index - 1)) (fun a => Ok (Some a, (index, (back_index - 1)%nat))).
+(** [.iter().rev().collect()]: [next_back] until [None]. *)
+Fixpoint de_back_all (fuel : nat) (st : de_state) : outcome (list bytes) :=
+  match fuel with
+  | O => Err E_FUEL_P
+  | S fuel' =>
+      obind (de_next_back st) (fun r =>
+      match fst r with
+      | None => Ok []
+      | Some a => obind (de_back_all fuel' (snd r)) (fun l => Ok (a :: l))
+      end)
+  end.
+(** an arbitrary interleaving: [true] = [next], [false] = [next_back]; returns what the front
+    calls yielded (in call order) and what the back calls yielded (in call order). *)
+Fixpoint de_drive (sched : list bool) (st : de_state) : outcome (list bytes * list bytes) :=
+  match sched with
+  | [] => Ok ([], [])
+  | front :: r =>
+      obind ((if front then de_next else de_next_back) st) (fun res =>
+      obind (de_drive r (snd res)) (fun fb =>
+      Ok (match fst res with
+          | None => fb
+          | Some a => if front then (a :: fst fb, snd fb) else (fst fb, a :: snd fb)
+          end)))
+  end.
+End DoubleEnded.
+(** [PresentArguments::iter()] starts at [(1, len)]. *)
+Definition pa_args_back (data : bytes) (exts : list posdata) (pa : span) : outcome (list bytes) :=
+  de_back_all data exts (fst pa) (S (snd pa)) (1%nat, snd pa).
+Definition pa_args_drive (data : bytes) (exts : list posdata) (pa : span) (sched : list bool)
+  : outcome (list bytes * list bytes) :=
+  de_drive data exts (fst pa) sched (1%nat, snd pa).
+
+(** What an extension sees that reads its arguments with [.iter().rev()] / with an interleaving
+    of [next] and [next_back]: per extension of the line (name, forward args, result). *)
+Definition present_parse_de {R} (f : bytes -> list posdata -> span -> outcome R) (data : bytes)
+  : outcome (option (list (bytes * list bytes * R))) :=
+  match pe_new data_start_fixed data with
+  | Panic => Panic
+  | Err e => Err e
+  | Ok None => Ok None
+  | Ok (Some (exts, data_start)) =>
+      obind (iter_all (S (length exts)) exts 0) (fun pas =>
+      obind (omap (fun pa => obind (pa_name data exts pa) (fun n =>
+                             obind (pa_args args_end data exts pa) (fun a =>
+                             obind (f data exts pa) (fun r => Ok (n, a, r))))) pas) (fun es =>
+      Ok (Some es)))
+  end.
+Definition present_parse_rev := present_parse_de pa_args_back.
+Definition present_parse_sched (sched : list bool) := present_parse_de (fun d e pa => pa_args_drive d e pa sched).
+(** [PresentArguments::empty()] read from the back / by an interleaving *)
+Definition empty_args_drive (sched : list bool) : outcome (list bytes * list bytes) := pa_args_drive [] [] (0%nat, 0%nat) sched.
+
 (** ---- independent specification of the line format (token level) ----
     first line = up to the first LF, an optional CR before it belongs to the terminator;
     it must start with "!> "; the rest is split at spaces, empty pieces dropped; the word
@@ -320,6 +396,74 @@ Definition run_present_spec_line (x : xval) : xval :=
       else run_present_line x
   | None => bad_input
   end.
+(** [present.parse_rev]: (B data) -> per extension (name, args by [iter()], args by [iter().rev()]);
+    [present.rev_spec]: the same with the reversed list computed by [rev] (theorem [args_rev_is_reverse]).
+    [present.sched]: (L (B data) (L bit...)) -> per extension (name, args, front yields, back yields). *)
+Definition x_rev_entry (e : bytes * list bytes * list bytes) : xval :=
+  XL [XB (fst (fst e)); x_list XB (snd (fst e)); x_list XB (snd e)].
+Definition run_present_rev (x : xval) : xval :=
+  match x with
+  | XB data => x_outcome (x_option (x_list x_rev_entry)) (present_parse_rev data)
+  | _ => bad_input
+  end.
+Definition run_present_rev_spec (x : xval) : xval :=
+  match x with
+  | XB data =>
+      x_outcome (x_option (x_list x_rev_entry))
+        (match present_parse data with
+         | Ok (Some p) => Ok (Some (map (fun e => (fst e, snd e, rev (snd e))) (p_entries p)))
+         | Ok None => Ok None
+         | Err e => Err e
+         | Panic => Panic
+         end)
+  | _ => bad_input
+  end.
+Definition x_sched_entry (e : bytes * list bytes * (list bytes * list bytes)) : xval :=
+  XL [XB (fst (fst e)); x_list XB (snd (fst e)); x_list XB (fst (snd e)); x_list XB (snd (snd e))].
+Definition d_sched (x : xval) : option (bytes * list bool) :=
+  match x with
+  | XL [XB data; bits] => match d_list d_bool bits with Some s => Some (data, s) | None => None end
+  | _ => None
+  end.
+Definition run_present_sched (x : xval) : xval :=
+  match d_sched x with
+  | Some (data, sched) => x_outcome (x_option (x_list x_sched_entry)) (present_parse_sched sched data)
+  | None => bad_input
+  end.
+(** the specification of a double-ended iterator: a deque on the list of arguments
+    ([true] pops the front, [false] pops the back; an empty deque yields nothing) *)
+Fixpoint deque_drive (sched : list bool) (l : list bytes) : list bytes * list bytes :=
+  match sched with
+  | [] => ([], [])
+  | true :: r =>
+      match l with
+      | [] => deque_drive r []
+      | a :: l' => let fb := deque_drive r l' in (a :: fst fb, snd fb)
+      end
+  | false :: r =>
+      match l with
+      | [] => deque_drive r []
+      | _ :: _ => let fb := deque_drive r (removelast l) in (fst fb, last l [] :: snd fb)
+      end
+  end.
+Definition sched_spec := deque_drive.
+Definition run_present_sched_spec (x : xval) : xval :=
+  match d_sched x with
+  | Some (data, sched) =>
+      x_outcome (x_option (x_list x_sched_entry))
+        (match present_parse data with
+         | Ok (Some p) => Ok (Some (map (fun e => (fst e, snd e, sched_spec sched (snd e))) (p_entries p)))
+         | Ok None => Ok None
+         | Err e => Err e
+         | Panic => Panic
+         end)
+  | None => bad_input
+  end.
+Definition run_empty_sched (x : xval) : xval :=
+  match d_list d_bool x with
+  | Some sched => x_outcome (fun fb => XL [x_list XB (fst fb); x_list XB (snd fb)]) (empty_args_drive sched)
+  | None => bad_input
+  end.
 (** [present.nopanic]: the statement of [present_never_panics] is checked on the implementation's
     output by the driver (outcome Ok, data_start <= len, body = input from data_start). *)
 Definition run_nopanic (x : xval) : xval := XL [XN 0].
@@ -332,4 +476,9 @@ Definition presentline_table : list (bytes * (xval -> xval)) :=
     (B "present.spec_line", run_present_spec_line);
     (B "present.nopanic", run_nopanic);
     (B "present.empty_args", run_empty_args);
-    (B "present.empty_args_v0", run_empty_args_v0) ].
+    (B "present.empty_args_v0", run_empty_args_v0);
+    (B "present.parse_rev", run_present_rev);
+    (B "present.rev_spec", run_present_rev_spec);
+    (B "present.sched", run_present_sched);
+    (B "present.sched_spec", run_present_sched_spec);
+    (B "present.empty_sched", run_empty_sched) ].
